@@ -374,6 +374,11 @@ func (m *DB) Update(db, coll string, filter, update, sortSpec bson.D, many, upse
 		if !strings.HasPrefix(top.Key, "$") {
 			return nil, other("replacement-style update")
 		}
+		switch top.Key {
+		case "$set", "$setOnInsert", "$unset", "$rename", "$inc", "$mul", "$min", "$max", "$currentDate", "$push", "$pop", "$pull", "$pullAll", "$addToSet", "$bit":
+		default:
+			return nil, other("unknown update operator " + top.Key)
+		}
 	}
 	res := &UpdateRes{UpsertedID: Missing}
 	if len(idx) == 0 {
